@@ -217,6 +217,30 @@ def run_case(case, ctx):
         ctx.check("golden-rule-analytic", loose, 1.0, dict(det, worst=dl, tolerance=tol_loose))
         ctx.note("loose_rel_dev", dl["rel_dev"] if dl else 0.0)
         ctx.note("T", T)
+        # time-dependent rate matrix: zero at t=0, conserving at every time, golden rule at its last time index
+        if N <= 3 and desc["Nt"] <= 1500:
+            with ctx.lib("TDRedfieldRateMatrix"):
+                from quantarhei.qm import TDRedfieldRateMatrix
+                TD = numpy.array(TDRedfieldRateMatrix(ham, agg.get_SystemBathInteraction()).data, dtype=float)
+            ok = TD.shape == (desc["Nt"], dim, dim)
+            ctx.require("td-rates", ok, dict(det, what="shape", got=list(TD.shape)))
+            if ok:
+                tsc = max(float(numpy.max(numpy.abs(TD))), 1e-300)
+                ctx.check("td-rates", float(numpy.max(numpy.abs(TD[0]))), 64 * EPS * tsc, dict(det, what="K(t=0) == 0"))
+                ctx.check("td-rates", float(numpy.max(numpy.abs(TD.sum(axis=1)))), 256 * EPS * tsc * dim, dict(det, what="column sums at every time"))
+                ctx.check("td-rates", float(max(numpy.max(numpy.abs(TD[:, 0, :])), numpy.max(numpy.abs(TD[:, :, 0])))), 0.0, dict(det, what="ground state"))
+                worst, wd = 0.0, None
+                for a in range(1, dim):
+                    for b in range(1, dim):
+                        if w[b] > w[a] + 1e-9 and (w[b] - w[a]) * desc["dt"] <= 0.16:
+                            om = w[b] - w[a]
+                            simp = 0.0
+                            for n in range(N):
+                                simp += S[n + 1, a] ** 2 * S[n + 1, b] ** 2 * 2.0 * B.simpson_half_ft(tt, numpy.array(cfs[n].data), om).real
+                            r = abs(TD[-1, a, b] - simp) / (2e-3 * abs(simp) + 1e-7 * sc)
+                            if r > worst:
+                                worst, wd = r, {"pair": [a, b], "td_last": TD[-1, a, b], "simpson_of_samples": simp}
+                ctx.check("td-rates", worst, 1.0, dict(det, what="downhill K(t_last) == golden rule", worst=wd))
         # tensor population elements form a rate matrix too
         ctx.check("tensor-colsum", float(numpy.max(numpy.abs(RT.sum(axis=0)))), 1e-13 * max(sc, Rscale) * dim * dim, det)
         ctx.key(("redfield", N, tuple(desc["E"]), T, desc["Nt"], desc["dt"]))
